@@ -32,9 +32,10 @@ template<class T> static void cat_fi_t(std::vector<Entry>& out, const char* tnam
     int lgmax = k.lgmax;
     Entry e; e.family = "fi"; e.kind = std::string(k.kind) + "_" + tname; e.name = "fi_" + e.kind;
     e.hints = J().i("isz", std::is_same<T, std::string>::value ? 0 : (int)sizeof(T)).done();
-    e.bytes = tob(s.serialize());
-    e.proj = proj_fi(s, lgmax);
-    e.reader = [lgmax](const Bytes& x) { auto r = frequent_items_sketch<T>::deserialize(x.data(), x.size()); Bytes rs = tob(r.serialize()); return Read{proj_fi(r, lgmax), rs}; };
+    fill(e, s,
+      [](const frequent_items_sketch<T>& o, bool st) { return st ? via_stream([&](std::ostream& os) { o.serialize(os); }) : tob(o.serialize()); },
+      [lgmax](const Bytes& x, bool st) { if (!st) return frequent_items_sketch<T>::deserialize(x.data(), x.size()); auto is = in_stream(x); return frequent_items_sketch<T>::deserialize(is); },
+      [lgmax](const frequent_items_sketch<T>& o) { return proj_fi(o, lgmax); });
     out.push_back(e);
   }
 }
@@ -54,9 +55,10 @@ static void cat_cm(std::vector<Entry>& out) {
     for (int i = 1; i <= k.n; i++) s.update((uint64_t)IV((long long)i * 11), (uint64_t)(1 + i % 5));
     uint64_t seed = k.seed;
     Entry e; e.family = "countmin"; e.kind = k.kind; e.name = "countmin_" + e.kind; e.hints = "{}";
-    e.bytes = tob(s.serialize());
-    e.proj = proj_cm(s, seed);
-    e.reader = [seed](const Bytes& x) { auto r = count_min_sketch<uint64_t>::deserialize(x.data(), x.size(), seed); Bytes rs = tob(r.serialize()); return Read{proj_cm(r, seed), rs}; };
+    fill(e, s,
+      [](const count_min_sketch<uint64_t>& o, bool st) { return st ? via_stream([&](std::ostream& os) { o.serialize(os); }) : tob(o.serialize()); },
+      [seed](const Bytes& x, bool st) { if (!st) return count_min_sketch<uint64_t>::deserialize(x.data(), x.size(), seed); auto is = in_stream(x); return count_min_sketch<uint64_t>::deserialize(is, seed); },
+      [seed](const count_min_sketch<uint64_t>& o) { return proj_cm(o, seed); });
     out.push_back(e);
   }
 }
@@ -79,9 +81,10 @@ static void cat_vo(std::vector<Entry>& out) {
     var_opt_sketch<int64_t> s((uint32_t)k.k);
     vo_fill(s, k.n, k.heavy);
     Entry e; e.family = "varopt"; e.kind = k.kind; e.name = "varopt_" + e.kind; e.hints = J().i("isz", 8).done();
-    e.bytes = tob(s.serialize());
-    e.proj = proj_vo(s);
-    e.reader = [](const Bytes& x) { auto r = var_opt_sketch<int64_t>::deserialize(x.data(), x.size()); Bytes rs = tob(r.serialize()); return Read{proj_vo(r), rs}; };
+    fill(e, s,
+      [](const var_opt_sketch<int64_t>& o, bool st) { return st ? via_stream([&](std::ostream& os) { o.serialize(os); }) : tob(o.serialize()); },
+      [](const Bytes& x, bool st) { if (!st) return var_opt_sketch<int64_t>::deserialize(x.data(), x.size()); auto is = in_stream(x); return var_opt_sketch<int64_t>::deserialize(is); },
+      [](const var_opt_sketch<int64_t>& o) { return proj_vo(o); });
     out.push_back(e);
   }
   // union images: 32-byte union preamble followed by the gadget sketch image (gadget flag, marks)
@@ -101,9 +104,10 @@ static void cat_vo(std::vector<Entry>& out) {
       return J().i("maxk", maxk).i("n", (long long)r.get_n()).b("empty", r.is_empty()).raw("ritems", ri.done()).done();
     };
     Entry e; e.family = "varoptu"; e.kind = k.kind; e.name = "varoptu_" + e.kind; e.hints = J().i("isz", 8).done();
-    e.bytes = tob(u.serialize());
-    e.proj = pr(u);
-    e.reader = [pr](const Bytes& x) { random_utils::override_seed(5); auto r = var_opt_union<int64_t>::deserialize(x.data(), x.size()); Bytes rs = tob(r.serialize()); return Read{pr(r), rs}; };
+    fill(e, u,
+      [](const var_opt_union<int64_t>& o, bool st) { return st ? via_stream([&](std::ostream& os) { o.serialize(os); }) : tob(o.serialize()); },
+      [pr](const Bytes& x, bool st) { if (!st) return var_opt_union<int64_t>::deserialize(x.data(), x.size()); auto is = in_stream(x); return var_opt_union<int64_t>::deserialize(is); },
+      [pr](const var_opt_union<int64_t>& o) { return pr(o); });
     out.push_back(e);
   }
 }
@@ -125,9 +129,10 @@ static void cat_eb(std::vector<Entry>& out) {
     EbKnown kn{0.0};
     for (int i = 1; i <= k.n; i++) { double w = k.mode ? 1.0 + (i % 5) : 1.0; kn.wtmax = std::max(kn.wtmax, w); s.update((int64_t)IV((long long)i * 17), w); }
     Entry e; e.family = "ebpps"; e.kind = k.kind; e.name = "ebpps_" + e.kind; e.hints = J().i("isz", 8).done();
-    e.bytes = tob(s.serialize());
-    e.proj = proj_eb(s, kn);
-    e.reader = [kn](const Bytes& x) { auto r = ebpps_sketch<int64_t>::deserialize(x.data(), x.size()); Bytes rs = tob(r.serialize()); return Read{proj_eb(r, kn), rs}; };
+    fill(e, s,
+      [](const ebpps_sketch<int64_t>& o, bool st) { return st ? via_stream([&](std::ostream& os) { o.serialize(os); }) : tob(o.serialize()); },
+      [kn](const Bytes& x, bool st) { if (!st) return ebpps_sketch<int64_t>::deserialize(x.data(), x.size()); auto is = in_stream(x); return ebpps_sketch<int64_t>::deserialize(is); },
+      [kn](const ebpps_sketch<int64_t>& o) { return proj_eb(o, kn); });
     out.push_back(e);
   }
 }
@@ -162,9 +167,10 @@ static void cat_bloom(std::vector<Entry>& out) {
     bool clean = k.clean;
     if (clean) (void)f.get_bits_used();
     Entry e; e.family = "bloom"; e.kind = k.kind; e.name = "bloom_" + e.kind; e.hints = "{}";
-    e.bytes = tob(f.serialize());
-    e.proj = proj_bloom(f, kn, clean);
-    e.reader = [kn, clean](const Bytes& x) { auto r = bloom_filter::deserialize(x.data(), x.size()); Bytes rs = tob(r.serialize()); return Read{proj_bloom(r, kn, clean), rs}; };
+    fill(e, f,
+      [](const bloom_filter& o, bool st) { return st ? via_stream([&](std::ostream& os) { o.serialize(os); }) : tob(o.serialize()); },
+      [kn, clean](const Bytes& x, bool st) { if (!st) return bloom_filter::deserialize(x.data(), x.size()); auto is = in_stream(x); return bloom_filter::deserialize(is); },
+      [kn, clean](const bloom_filter& o) { return proj_bloom(const_cast<bloom_filter&>(o), kn, clean); });
     out.push_back(e);
   }
 }
@@ -184,9 +190,10 @@ static void cat_den(std::vector<Entry>& out) {
     density_sketch<float> s((uint16_t)k.k, (uint32_t)k.dim);
     for (int i = 1; i <= k.n; i++) { std::vector<float> p; for (int j = 0; j < k.dim; j++) p.push_back((float)(((PV(i) + j * 101) % 1009) * 0.125)); s.update(p); }
     Entry e; e.family = "density"; e.kind = k.kind; e.name = "density_" + e.kind; e.hints = "{}";
-    e.bytes = tob(s.serialize());
-    e.proj = proj_den(s);
-    e.reader = [](const Bytes& x) { auto r = density_sketch<float>::deserialize(x.data(), x.size()); Bytes rs = tob(r.serialize()); return Read{proj_den(r), rs}; };
+    fill(e, s,
+      [](const density_sketch<float>& o, bool st) { return st ? via_stream([&](std::ostream& os) { o.serialize(os); }) : tob(o.serialize()); },
+      [](const Bytes& x, bool st) { if (!st) return density_sketch<float>::deserialize(x.data(), x.size()); auto is = in_stream(x); return density_sketch<float>::deserialize(is); },
+      [](const density_sketch<float>& o) { return proj_den(o); });
     out.push_back(e);
   }
 }
